@@ -20,7 +20,11 @@
 From DG Require Import Base.Util Base.Sexp Model.Graph Model.Builder Proofs.BuilderProofs Proofs.ChecksumProofs
   Proofs.ClosureProofs.
 
-Theorem C01_complete : forall W o k roots imports g',
+(* [forall s r, class_of W s <> SNpm r]: the build has no npm resolver (no specifier is handed to one).
+   With a resolver an npm: specifier has no entry until the resolver stage at the very end of the
+   build; that stage is in the model (Builder.npm_resolve / npm_fill), is compared with the real
+   builder per case, and is covered by the no-pending theorems, but not by this one. *)
+Theorem C01_complete : forall W o, (forall s r, class_of W s <> SNpm r) -> forall k roots imports g',
   w_lock W = None ->
   build W o (empty_bgraph k) roots imports = Some g' ->
   (forall r, In r roots -> Settled g' r) /\
@@ -96,7 +100,7 @@ Definition c01_world : world :=
                 c01_mod 2 [c01_dep 13 (ROk 4 0) RNone false; c01_dep 14 RNone (ROk 6 0) false];
                 c01_mod 3 [c01_dep 15 (ROk 4 0) RNone false];
                 c01_mod 4 []; c01_mod 5 []; c01_mod 6 []; c01_mod 7 []];
-     w_resp_reload := []; w_http := []; w_lock := None; w_class := []; w_file := []; w_max_redirects := 10 |}.
+     w_resp_reload := []; w_http := []; w_lock := None; w_class := []; w_file := []; w_max_redirects := 10; w_npm := None |}.
 Definition c01_opts (k : gkind) : bopts :=
   {| bo_kind := k; bo_is_dynamic := false; bo_skip_dynamic := false; bo_unstable_bytes := false;
      bo_unstable_text := false; bo_unstable_css := false |}.
